@@ -1,4 +1,5 @@
 """C05 - a script is analysed as exactly the sequence of its statements.  Spec: Split.tla (+ Script.tla ideal fold)."""
+from harness import REPO as _REPO
 import multiprocessing as mp
 import os
 import random
@@ -42,8 +43,8 @@ def norm(s):
 def _helpers_chunk(args):
     cases, dialect = args
     import sys
-    if "/repo" not in sys.path:
-        sys.path.insert(0, "/repo")
+    if _REPO not in sys.path:
+        sys.path.insert(0, _REPO)
     from sqllineage.utils.helpers import split, trim_comment
     out = []
     for c in cases:
@@ -58,8 +59,8 @@ def _runner_chunk(args):
     cases, dialect, mode = args
     import sys
     import warnings
-    if "/repo" not in sys.path:
-        sys.path.insert(0, "/repo")
+    if _REPO not in sys.path:
+        sys.path.insert(0, _REPO)
     os.chdir("/tmp")
     warnings.simplefilter("ignore")
     from sqllineage.config import SQLLineageConfig
